@@ -35,7 +35,8 @@ def _mc(ctx, module, cfg, env, timeout=1500):
 def _vacuity(stim):
     """every event kind and consumer occurs among the TLC stimuli (a count, not an oracle)"""
     need = ['"ev":"next"', '"ev":"is_exhausted"', '"ev":"drop"', '"ev":"resume"', '"consumer":"take"',
-            '"consumer":"ue"', '"consumer":"il"', '"consumer":"lift"', '"byref":true', '"k":"byref"', '"k":"srcs"']
+            '"consumer":"ue"', '"consumer":"il"', '"consumer":"lift"', '"consumer":"il_clone"', '"consumer":"ue_clone"',
+            '"consumer":"take_clone"', '"ev":"clone"', '"fmt":"i32"', '"fmt":"i64"', '"byref":true', '"k":"byref"', '"k":"srcs"']
     seen = set()
     with open(stim) as f:
         for line in f:
@@ -65,7 +66,8 @@ def pipeline(ctx, replay=None, prop="all"):
         ctx.exhaustive = True
         ctx.extra["mc_constants"] = {
             "sources": "4 sources of 0,1,2,3 frames (interleaved ones with a partial trailing frame)",
-            "sorts": "i16 stereo, u8 mono, f64 stereo (operands of add/mul at i8, f32 where the types say so)",
+            "sorts": "i16 stereo, u8 mono, f64 stereo (operands of add/mul at i8, f32 where the types say so); "
+                     "every depth-1 adaptor variant also in i32 stereo and i64 mono (values wider than the float mantissa)",
             "terms": "all depth<=1 terms (every closure / gain / delay variant, every leaf kind) in 3 sorts; "
                      "depth-2 terms (one variant per adaptor kind over from_iter leaves) in "
                      + ("i16 stereo over sources {2,4}" if tier == "quick" else "i16 stereo over sources {1,3,4}, u8 mono and f64 stereo over sources {2,4}"),
@@ -87,8 +89,11 @@ def pipeline(ctx, replay=None, prop="all"):
 
 
 ASSUME_COMMON = [
-    "frame sorts: i16, u8 (unsigned re-centring), f64, with operands of add_amp / mul_amp at i8 / i16 / f32 / f64 as the "
-    "associated types dictate; 1-4 channels (mono = the bare sample type); other sample formats share the generic code",
+    "frame sorts: i16, u8 (unsigned re-centring), f64, i32, u32, i64 (samples needing more bits than f32 / f64 hold), with "
+    "operands of add_amp / mul_amp at i8 / i16 / i32 / i64 / f32 / f64 as the associated types dictate; 1-4 channels "
+    "(mono = the bare sample type); other sample formats share the generic code",
+    "Clone of the signal / of take, until_exhausted and the interleaved-sample iterator is taken mid-stream on terms without "
+    "a borrowed (by_ref) leaf; clone and original share the pull instrumentation",
     "stimuli stay inside the domain on which C03 defines the frame arithmetic (no integer overflow, float->int within "
     "[-1,1)); an execution leaving it is skipped (UNDEF), not judged",
     "map / zip_map closures come from a fixed menu (id, rev, inv, from_signed, from_float; first, second, interleave, addamp)",
